@@ -487,6 +487,7 @@ var c10Corpus = []string{
 	`(?<99999999999>a)`, `\99999999999`, `(?<n>a)(?<n>b)`, `(?<n>a)|(?<n>b)\k<n>`, `(?<3>a)(b)(?<5>c)(d)`, `(?<a>1)(2)(?<b>3)(4)`,
 	// a subtraction written where a range was expected whose class starts with a literal ']' and holds parentheses / brackets:
 	// the capture pre-scan must skip it as a unit (a5090c5: it closed the outer class at the first ']' and lost step with the main pass)
+	`(?<1>a)(b)`, `(a)(?<1>b)`, `(a)(?<n>b)(?<5>c)`, `(?<2>a)(b)(?<n>c)`, `(?<2>x)(?<2>y)(b)`, `(?<2>x)(?'2'y)(?<2>z)(w)`,
 	`(?n:[a-[](]])(b)`, `(?n:[a-[](]])(?<x>b)(c)`, `[a-[](]](b)\1`, `([a-[])]])`, `(?x:[a-[]#]])(b)`, `[a-[]b]]`, `[a-[^]]]`, `[a-[][]](b)`, `[a-[](]`, `[a-[](]]x]`, `(?i:[a-[](]])(b)`, `[\p-x-[](]](b)`,
 }
 
@@ -496,6 +497,8 @@ var c10CorpusDialect = []string{
 	`[]`, `[^]`, `[]a]`, `[a-\d]`, `[\d-a]`, `[\pL]`, `[a-\p]`, `[\p-z]`, `[\p-a]`, `[a-\P]`, `\p{L}`, `\pL`, `\u{41}`, `\u{}`, `\x{41}`, `\k<n>`, `\k`, `\8`, `\18`, `(a)\18`, `.`, `(?s).`, `\b\B`, `(?<n>a)`, `(?<=a)b`, `(?<!a)b`, `\1(a)`,
 	`\q`, `\c`, `\x4`, `\u00`, `a{2}`, `(?i)[\W]`, `(?i)\w`, `(?i)[k\d]`,
 	// (?P=name) as the condition parenthesis of (?( ... ): not a back-reference there (4f8aca1: it left the conditional without a condition child)
+	// digits as a group name under MaintainCaptureOrder / RE2: the main pass reads them as the name the pre-scan filed (2b27550)
+	`(?<2>x)(?P<2>y)(?<2>z)(w)`, `(?<1>a)(b)`, `(a)(?<1>b)`, `(a)(?<n>b)(?<5>c)`, `(?<2>a)(b)(?<n>c)`, `(?<2>x)(?<2>y)(b)`, `(?<3>a)(?<-3>b)`, `(?<a>x)(?<2-a>y)(z)`, `(?<0>a)`, `(?<2>x)(?P<2>y)\k<2>(w)\2`,
 	`(?P<a>x)(?(?P=a)b)`, `(?P<a>x)(?(?P=a)b|c)`, `(?P<a>x)(?(?P=a)b|c|d)`, `(?P<a>x)(?(?P=a))`, `(?(?P=a)b)`, `(?P<a>x)(?(a)(?P=a)b)`, `(?P<a>x)(?((?P=a))b)`,
 }
 
